@@ -167,3 +167,5 @@ P("C19",
   assumptions=["inspectors of the data do not allocate (slices and structs of koykov/inspector's testobj; maps excluded)"])
 PROPS["C05"]["srcfacts"] = True
 PROPS["C15"]["srcfacts"] = True
+for _p in ("C13", "C17", "C11", "C20"):
+    PROPS[_p]["srcfacts"] = True
